@@ -20,7 +20,7 @@ THEOREMS = [
 ]
 RULE = ('triples (ns, nswin, overlap) with overlap < nswin: an exhaustive small box plus seeded random triples '
         '(log-uniform sizes up to 10^7, biased to short last windows, ns <= overlap, zero overlap, 2*overlap = nswin); '
-        'each triple is run through firstlast / nwin / tscale, firstlast_valid (even overlaps, odd ones must assert) '
+        'each triple is run through firstlast / nwin / tscale (a subset also twice on ONE generator object, with the yielded amplitude arrays overwritten in between), firstlast_valid (even overlaps, odd ones must assert) '
         'and firstlast_splicing; a case is non-trivial when it yields >= 2 windows or ns < nswin; distinct by triple+op')
 ASSUMPTIONS = [
     'nwin is computed in float64 by the code (ceil of a float quotient); the model uses exact integers, equal for ns < 2^26',
@@ -57,6 +57,31 @@ def _impl_splice(ns, w, ov):
         sums[f:l] += a
         amps.append(np.array(a, dtype=float))
     return sums, amps
+
+
+def _impl_same_object(ns, w, ov):
+    """All generators consumed from ONE WindowGenerator object, twice, with the yielded amplitude arrays mutated in
+    between: the object must behave as a pure function of (ns, nswin, overlap)."""
+    from ibldsp.utils import WindowGenerator
+    wg = WindowGenerator(ns, w, ov)
+    out = []
+    for rep in range(2):
+        fl = [(int(a), int(b)) for a, b in wg.firstlast]
+        ts2 = [int(round(2 * float(t))) for t in wg.tscale(1)]
+        try:
+            v = [tuple(int(x) for x in q) for q in wg.firstlast_valid]
+            vs = 'ok ' + (';'.join(','.join(map(str, q)) for q in v) or '-')
+        except AssertionError:
+            vs = 'err Assertion'
+        sl = [(int(sl.start), int(sl.stop)) for sl in wg.slice]
+        amps = []
+        for f, l, a in wg.firstlast_splicing:
+            amps.append(np.array(a, dtype=float))
+            a *= 0           # a caller working in place on what it was given must not disturb later calls
+            a += 7
+        out.append((f'ok nwin={int(wg.nwin)} fl=' + (';'.join(f'{a},{b}' for a, b in fl) or '-') + ' ts2=' + (','.join(map(str, ts2)) or '-'),
+                    vs, sl == fl, amps))
+    return out
 
 
 def _decode(tok):
@@ -134,6 +159,26 @@ def correspondence(ctx):
             impl_s, model_s = f'err {type(e).__name__}: {e}', ans[:80]
         ctx.compare('splice', desc, impl_s, model_s, nontrivial=(ns > w),
                     tags=('splice', '2ov<=w' if 2 * ov <= w else '2ov>w'))
+    # same object reused (state carried between calls: iw counter, cached ramps ...)
+    so = [t for t in trip if t[0] <= 300 and t[1] <= 40][::ctx.n(23, 5)] + [t for t in trip[-200:] if t[0] * ((t[0] - t[1]) // (t[1] - t[2]) + 2) <= 60000]
+    lines = []
+    for ns, w, ov in so:
+        lines += [f'firstlast {ns} {w} {ov}', f'valid {ns} {w} {ov}', f'splice {ns} {w} {ov}']
+    model = ctx.lean(lines)
+    for k, (ns, w, ov) in enumerate(so):
+        mfl, mv, msp = model[3 * k: 3 * k + 3]
+        mamps = [_decode(t) for t in dict(p.split('=', 1) for p in msp.split()[1:])['amps'].split(';')]
+        try:
+            reps = _impl_same_object(ns, w, ov)
+            for rep, (ifl, iv, slice_ok, amps) in enumerate(reps):
+                okamp = len(amps) == len(mamps) and all(len(x) == len(y) and np.allclose(x, y, atol=1e-12, rtol=0) for x, y in zip(mamps, amps))
+                impl_s = f'{ifl} | {iv} | slice={slice_ok} | amps={"ok" if okamp else [a[:4].tolist() for a in amps[:2]]}'
+                model_s = f'{mfl} | {mv} | slice=True | amps=ok'
+                ctx.compare('same-object', {'op': 'same-object', 'pass': rep, 'ns': ns, 'nswin': w, 'overlap': ov}, impl_s, model_s,
+                            nontrivial=(ns > w), tags=('same-object',))
+        except Exception as e:
+            ctx.compare('same-object', {'op': 'same-object', 'ns': ns, 'nswin': w, 'overlap': ov}, f'err {type(e).__name__}: {e}', 'ok',
+                        tags=('same-object',))
     ctx.exhaustive = False
     ctx.note(f'exhaustive box ns<={ctx.exhaustive_box[0]}, nswin<={ctx.exhaustive_box[1]}, every overlap < nswin: '
              f'enumerated completely for firstlast/nwin/tscale/valid')
@@ -167,6 +212,22 @@ def oracle(ns, w, ov):
         if not np.all(cnt == 1):
             t = int(np.where(cnt != 1)[0][0])
             return f'sample {t} is contained in {int(cnt[t])} valid sub-windows'
+    # the generator object is a pure function of (ns, nswin, overlap): a second pass over the same object agrees
+    fl2 = [(int(a), int(b)) for a, b in wg.firstlast]
+    if fl2 != fl:
+        return f'second iteration over the same WindowGenerator yields different windows: {fl2[:3]} vs {fl[:3]}'
+    if 2 * ov <= w and ns <= 20000:
+        wg2 = WindowGenerator(ns, w, ov)
+        for rep in range(2):
+            s2 = np.zeros(ns)
+            try:
+                for a, b, amp in wg2.firstlast_splicing:
+                    s2[a:b] += amp
+                    amp *= 0
+            except Exception as e:
+                return f'firstlast_splicing (pass {rep} on the same object) raised {type(e).__name__}: {e}'
+            if np.max(np.abs(s2 - 1)) > 1e-9:
+                return f'splicing amplitudes on pass {rep} over the same object sum to {s2[int(np.argmax(np.abs(s2 - 1)))]} (yielded arrays were modified by the caller in between)'
     if 2 * ov <= w and ns <= 200000:
         s = np.zeros(ns)
         try:
